@@ -170,12 +170,27 @@ class MediaList(cssutils.util._NewListBase):
     def __setitem__(self, index, newMedium):
         """Overwriting ListSeq.__setitem__
 
-        Any duplicate items are **not yet** removed.
+        Replace the `index`'th medium (as counted by :attr:`length` and
+        :meth:`item`, comments do not count). The list is kept canonical
+        like ``mediaText`` and :meth:`appendMedium` do: another entry with
+        the same media type is removed and "all" replaces all other media.
         """
-        # TODO: remove duplicates?
         newMedium = self.__prepareset(newMedium)
         if newMedium:
-            self._seq[index] = (newMedium, 'MediaQuery', None, None)
+            media = [
+                i for i, item in enumerate(self._seq) if item.type == 'MediaQuery'
+            ]
+            seqindex = media[index]
+            self._seq[seqindex] = (newMedium, 'MediaQuery', None, None)
+
+            newmt = normalize(newMedium.mediaType)
+            if newmt:
+                for i in reversed(media):
+                    if i != seqindex and (
+                        newmt == 'all'
+                        or normalize(self._seq[i].value.mediaType) == newmt
+                    ):
+                        del self._seq[i]
 
     def appendMedium(self, newMedium):
         """Add the `newMedium` to the end of the list.
